@@ -4,6 +4,8 @@ use crate::nutsrec::*;
 use crate::util::*;
 use burn::backend::{Autodiff, NdArray};
 use mini_mcmc::distributions::{DiffableGaussian2D, Rosenbrock2D};
+use burn::prelude::*;
+use mini_mcmc::distributions::GradientTarget;
 use serde_json::{json, Value};
 
 type B64 = Autodiff<NdArray<f64>>;
@@ -102,4 +104,130 @@ pub fn record(args: &[String]) {
             "uturn_inner": p.tree.iter().filter(|e| e["e"] == "merge" && e["s1"] == 1 && e["s2"] == 1 && e["s"] == 0).count()}));
     }
     println!("{}", json!({"summary": true, "jobs": Value::Array(summary)}));
+}
+
+// ---------------------------------------------------------------------------------------------
+// spec -> impl: build_tree on a SCRIPTED target (spec/Replay_NutsTree.tla)
+
+/// The target of Replay_NutsTree.tla: the a-coordinate of the position is the trajectory offset; the
+/// log-density and the gradient at an offset come from tables that TLC derived from the script.
+struct Script {
+    v: i64,
+    /// index |offset|: joint log-density the point shall have
+    joint: Vec<f64>,
+    /// index |offset|: doubled b-momentum the trajectory has there
+    pd: Vec<f64>,
+    /// index |offset|: b-component of the scripted gradient
+    g: Vec<f64>,
+}
+impl Script {
+    fn index(&self, a: f64) -> usize {
+        let k = a.round();
+        let i = k.abs() as usize;
+        if (a - k).abs() > 1e-9 || (k != 0.0 && (k > 0.0) != (self.v > 0)) || i >= self.joint.len() {
+            panic!("scripted target evaluated off the script: a = {a}");
+        }
+        i
+    }
+}
+impl GradientTarget<f64, B64> for Script {
+    fn unnorm_logp(&self, x: Tensor<B64, 1>) -> Tensor<B64, 1> {
+        self.unnorm_logp_and_grad(x).0
+    }
+    fn unnorm_logp_and_grad(&self, x: Tensor<B64, 1>) -> (Tensor<B64, 1>, Tensor<B64, 1>) {
+        let dev = x.device();
+        let p: Vec<f64> = x.into_data().to_vec::<f64>().unwrap();
+        let i = self.index(p[0]);
+        let pb = self.pd[i] / 2.0;
+        // joint = logp - |mom|^2 / 2 with mom = (1, pb)
+        let logp = self.joint[i] + 0.5 * (1.0 + pb * pb);
+        (Tensor::<B64, 1>::from_data(TensorData::new(vec![logp], [1]), &dev), Tensor::<B64, 1>::from_data(TensorData::new(vec![0.0, self.g[i]], [2]), &dev))
+    }
+}
+
+const LEVEL_JOINT: [f64; 4] = [-1.0, -1.5, -50.0, -5000.0];
+
+pub fn replay(args: &[String]) {
+    use std::collections::BTreeMap;
+    let rows = read_ndjson(&args[0]);
+    let seeds = arg_u64(args, "--seeds", 6);
+    // group TLC's results by script
+    let mut cases: BTreeMap<String, Vec<&Value>> = BTreeMap::new();
+    for r in &rows {
+        let key = json!([r["v"], r["j"], r["p0"], r["lev"], r["pp"]]).to_string();
+        cases.entry(key).or_default().push(r);
+    }
+    let dev = <B64 as Backend>::Device::default();
+    let (mut evals, mut deep, mut uturn_stops, mut both_cands) = (0u64, 0u64, 0u64, 0u64);
+    let mut bad: Vec<Value> = vec![];
+    for (key, rs) in &cases {
+        let r0 = rs[0];
+        let (v, j) = (r0["v"].as_i64().unwrap(), r0["j"].as_u64().unwrap() as usize);
+        let ints = |x: &Value| -> Vec<f64> { x.as_array().unwrap().iter().map(|y| y.as_i64().unwrap() as f64).collect() };
+        let (lev, pp, g, b2) = (ints(&r0["lev"]), ints(&r0["pp"]), ints(&r0["g"]), ints(&r0["b2"]));
+        let p0 = r0["p0"].as_i64().unwrap() as f64;
+        // the deterministic part of the result is the same in every behaviour of the specification
+        let det = |r: &Value| (r["n"].as_u64().unwrap(), r["s"].as_bool().unwrap(), r["na"].as_u64().unwrap());
+        if rs.iter().any(|r| det(r) != det(r0)) {
+            tool_error(&format!("specification gives two different (n', s', n_alpha) for script {key}"));
+        }
+        let (en, es, ena) = det(r0);
+        let cands: Vec<i64> = rs.iter().map(|r| r["cand"].as_i64().unwrap()).collect();
+        let mut joint = vec![-1.0];
+        joint.extend(lev.iter().map(|l| LEVEL_JOINT[*l as usize]));
+        let mut pd = vec![p0];
+        pd.extend(pp.iter());
+        let mut gg = vec![0.0];
+        gg.extend(g.iter());
+        let alpha_expected: f64 = (1..=ena as usize).map(|i| (joint[i] + 1.0).exp().min(1.0)).sum();
+        if ena as usize == 1 << j && j >= 2 {
+            deep += 1;
+        }
+        if !es && (1..=ena as usize).all(|i| lev[i - 1] <= 2.0) {
+            uturn_stops += 1;
+        }
+        let mut seen = std::collections::BTreeSet::new();
+        for sd in 0..seeds {
+            let target = Script { v, joint: joint.clone(), pd: pd.clone(), g: gg.clone() };
+            let mut rng = <rand::rngs::SmallRng as rand::SeedableRng>::seed_from_u64(1000 * sd + 17);
+            evals += 1;
+            let res = catch(|| {
+                let pos = Tensor::<B64, 1>::from_data(TensorData::new(vec![0.0, 0.0], [2]), &dev);
+                let mom = Tensor::<B64, 1>::from_data(TensorData::new(vec![1.0, p0 / 2.0], [2]), &dev);
+                let grad = Tensor::<B64, 1>::from_data(TensorData::new(vec![0.0, 0.0], [2]), &dev);
+                let (p, n, s, alpha, na) = mini_mcmc::nuts::verif_api::build_tree::<B64, f64, _>(pos, mom, grad, -2.0, v as i8, j, 1.0, &target, -1.0, &mut rng);
+                (p.into_data().to_vec::<f64>().unwrap(), n, s, alpha, na)
+            });
+            let why = match res {
+                Err(e) => Some(format!("panic: {e}")),
+                Ok((p, n, s, alpha, na)) => {
+                    let k = p[0].round() as i64;
+                    seen.insert(k);
+                    if (n as u64, s, na as u64) != (en, es, ena) {
+                        Some(format!("(n', s', n_alpha) = ({n}, {s}, {na}), specification: ({en}, {es}, {ena})"))
+                    } else if !cands.contains(&k) || (p[0] - k as f64).abs() > 1e-9 {
+                        Some(format!("candidate at offset {} is not a result of the specification (possible: {:?})", p[0], cands))
+                    } else if k != 0 && p[1] != b2[k.unsigned_abs() as usize - 1] / 2.0 {
+                        Some(format!("candidate position b = {} but the trajectory has b = {} at offset {k}", p[1], b2[k.unsigned_abs() as usize - 1] / 2.0))
+                    } else if (alpha - alpha_expected).abs() > 1e-9 {
+                        Some(format!("alpha' = {alpha}, sum over the {ena} leaves built = {alpha_expected}"))
+                    } else {
+                        None
+                    }
+                }
+            };
+            if let Some(w) = why {
+                if bad.len() < 40 {
+                    bad.push(json!({"case": {"v": v, "j": j, "p0": p0, "lev": r0["lev"], "pp": r0["pp"]}, "seed": sd, "why": w,
+                        "expected": {"n": en, "s": es, "na": ena, "cands": cands}, "rows": rs}));
+                }
+                break;
+            }
+        }
+        if seen.len() >= 2 {
+            both_cands += 1;
+        }
+    }
+    println!("{}", json!({"summary": true, "cases": cases.len(), "evaluations": evals, "full_depth_trees": deep, "stopped_by_uturn": uturn_stops,
+        "cases_with_two_candidates_seen": both_cands, "bad": bad}));
 }
